@@ -38,6 +38,22 @@ CLAIMS = {
             "cancelled future runs only destructors); the availability query answers only from the dependencies map/hint bits. "
             "Verdict equality with a fresh solver is not decided.",
             "DESIGN.md section 4 C13"),
+    "C16": ("dimension analysis (T-DIM) of snapshot id arithmetic + capture pairing/arm agreement + provider-sibling def-use (MIR)",
+            "Decides the structural clause of C16: fresh ids are END+ITEMS, the additional test is IDX>=END and its offset IDX-END "
+            "(so added version sets never alias and the highest captured id stays resolvable - the sparse/high-id cases the dense "
+            "tests cannot reach); every discovered id goes through seen.insert -> push_back; each capture arm stores under its own "
+            "id in its own mapping; unions are kept in listing order; order = index in the provider-sorted list for every captured "
+            "package; SnapshotProvider answers are def-use connected to the captured fields. Verdict equality with the live "
+            "provider is not decided.",
+            "DESIGN.md section 4 C16"),
+    "C19": ("dimension analysis (T-DIM): forward abstract interpretation of integer kinds over the MIR of every Mapping method",
+            "Decides the dimension clause of C19 on every path: bound comparisons are well-kinded (slot index vs slot end/last, "
+            "chunk index vs chunk count - never the item count), unchecked accesses in safe methods are dominated by such a test, "
+            "len changes exactly on None<->Some transitions, max is a running maximum, the iterator reads id and slot from the "
+            "cursor before advancing it by one from 0, Serialize emits max()+1 slots and Deserialize stores slot i under id i. "
+            "These are necessary conditions that fail exactly for sparse ids / ids beyond one chunk, which the dense test never "
+            "builds. Equivalence with a reference map over all histories is not decided.",
+            "DESIGN.md section 4 C19"),
     "C20": ("sibling-agreement of the two filter call sites, def-use provenance of the sorted list, operation allow-list for the favored move, truthful availability query (MIR)",
             "Decides the structural clause of C20: memoisation/choke points (no second provider call), inverse flag <-> destination "
             "map agreement with the queried version set and the package's full candidate list, the list handed to sort_candidates "
